@@ -2,6 +2,7 @@ package props
 
 import (
 	"go/token"
+	"strings"
 
 	"bifrostverify/an"
 
@@ -231,6 +232,40 @@ func c10(c *an.Check) {
 			Reqs: []an.Req{an.CallOK("IDB58Decode ok", an.R("peer", "", "IDB58Decode"))}})
 	} else {
 		c.Undecided("GATE", "confparse.ParsePeerID non-empty success-return", nil, "unresolved anchor")
+	}
+	// the identity multihash wraps the generated codec of crypto.PublicKey
+	pbCodecSanity(c, func(rel string) bool { return rel == "crypto" })
+	// a key pair imported from a standard-library key hands out a public key with storage of its own (std Public() copies):
+	// the id derived from it must not change when the caller wipes or reuses its private-key buffer
+	if kp := p.Func("crypto", "", "KeyPairFromStdKey"); kp == nil {
+		c.Undecided("OWNERSHIP", "crypto.KeyPairFromStdKey", nil, "unresolved anchor")
+	} else {
+		nK, badK := 0, ""
+		for _, b := range kp.Blocks {
+			for _, ins := range b.Instrs {
+				stt, ok := ins.(*ssa.Store)
+				if !ok {
+					continue
+				}
+				fa, ok := stt.Addr.(*ssa.FieldAddr)
+				if !ok || !isNamedPtr(fa.X.Type(), "Ed25519PublicKey") {
+					continue
+				}
+				nK++
+				fromStd := p.DependsOn(stt.Val, func(v ssa.Value) bool {
+					call, ok := v.(*ssa.Call)
+					if !ok {
+						return false
+					}
+					fo := an.CallObj(call.Common())
+					return fo != nil && fo.Name() == "Public" && fo.Pkg() != nil && strings.HasSuffix(fo.Pkg().Path(), "ed25519")
+				})
+				if !fromStd {
+					badK = "the public key returned for an imported standard key is not the copy made by ed25519.PrivateKey.Public(): it shares storage with the caller's private key buffer"
+				}
+			}
+		}
+		c.Require(badK == "" && nK >= 1, "OWNERSHIP", "crypto.KeyPairFromStdKey returns a public key with storage of its own", kp, "", nK, "public key bytes come from std Public()", badK)
 	}
 	// totality
 	bce := peerBCE(c, "./peer")
